@@ -1323,6 +1323,9 @@ class CipherSuite:
         """
         includeSuites = set([])
         includeSuites.update(CipherSuite.tls13Suites)
+        # the SRP suites without server authentication don't use the
+        # certificate, so they can be used whether we have one or not
+        includeSuites.update(CipherSuite.srpSuites)
         if cert_chain:
             if cert_chain.x509List[0].certAlg in ("rsa", "rsa-pss"):
                 includeSuites.update(CipherSuite.certAllSuites)
@@ -1336,7 +1339,6 @@ class CipherSuite:
             if cert_chain.x509List[0].certAlg == "dsa":
                 includeSuites.update(CipherSuite.dheDsaSuites)
         else:
-            includeSuites.update(CipherSuite.srpSuites)
             includeSuites.update(CipherSuite.anonSuites)
             includeSuites.update(CipherSuite.ecdhAnonSuites)
         return [s for s in suites if s in includeSuites]
